@@ -3,6 +3,7 @@ package main
 import (
 	"fmt"
 	"go/ast"
+	"go/constant"
 	"go/token"
 	"go/types"
 	"sort"
@@ -18,7 +19,7 @@ import (
 func init() {
 	register(&propDef{
 		ID:          "C15",
-		Explanation: "Equality with single-file generation over all trees, worker counts and schedules is not decided. Decides the structural reasons it is true: R1 every field of the event handler that has a sibling `<field>Mutex` is accessed (outside the constructor) only with that mutex in the must-held set; R2 every path handed to the file writer, os.WriteFile, os.Create or os.Remove in the per-file handler derives from that event's own file name through TrimSuffix+constant suffix or the development text-file name function (no other file is touched); R3 the bytes written are the result of format.Source over the generator's buffer, the hash gating the write is computed over that same value, and the write sits inside the hash test; R4 the handler's error reaches the error channel, every non-fatal error increments the counter, the command's final return is non-nil when the counter is positive, and in the per-file generator the errors of parsing, generation, formatting and both writes reach a return; R5 both directory walks consult skipdir.ShouldSkip for directories and return SkipDir, and ShouldSkip's true-returns are exactly vendor, node_modules, dot- and underscore-prefixed; R6 (VTA call graph) nothing reachable from generator.Generate or the parser's Parse calls time.Now, math/rand or os.Getenv, and the generator does not range over a map; R7 the wait-group Add and the semaphore acquire precede the `go` statement, the worker defers Done and the release, and the post-generation channel is closed only after the wait. R8 a slice field of the handler that per-event methods append to without copying is handed to the constructor without declared spare capacity (no make(…, len, cap>len), no re-slice). NOT decided: file-system races with other processes, fsnotify delivery, spare capacity produced by append's own growth.",
+		Explanation: "Equality with single-file generation over all trees, worker counts and schedules is not decided. Decides the structural reasons it is true: R1 every field of the event handler that has a sibling `<field>Mutex` is accessed (outside the constructor) only with that mutex in the must-held set; R2 every path handed to the file writer, os.WriteFile, os.Create or os.Remove in the per-file handler derives from that event's own file name through TrimSuffix+constant suffix or the development text-file name function (no other file is touched); R3 the bytes written are the result of format.Source over the generator's buffer, the hash gating the write is computed over that same value, and the write sits inside the hash test; R4 the handler's error reaches the error channel, every non-fatal error increments the counter, the command's final return is non-nil when the counter is positive, and in the per-file generator the errors of parsing, generation, formatting and both writes reach a return; R5 both directory walks consult skipdir.ShouldSkip for directories and return SkipDir, and ShouldSkip's true-returns are exactly vendor, node_modules, dot- and underscore-prefixed; R6 (VTA call graph) nothing reachable from generator.Generate or the parser's Parse calls time.Now, math/rand or os.Getenv, and the generator does not range over a map; R7 the wait-group Add and the semaphore acquire precede the `go` statement, the worker defers Done and the release, and the post-generation channel is closed only after the wait. R8 a slice field of the handler that per-event methods append to without copying is handed to the constructor without declared spare capacity (no make(…, len, cap>len), no re-slice). R9 every output file is replaced, not overwritten in place: os.WriteFile / os.Create, or os.OpenFile with O_TRUNC (constant-evaluated flags). NOT decided: file-system races with other processes, fsnotify delivery, spare capacity produced by append's own growth.",
 		Assumptions: []string{"format.Source is deterministic", "sha256 collisions do not occur"},
 		Trusted:     []string{"go/types", "x/tools go/packages, go/cfg, go/ssa, callgraph/vta"},
 		Run:         runC15,
@@ -27,6 +28,7 @@ func init() {
 
 func runC15(c *Ctx) {
 	c.load("./cmd/templ/generatecmd", "./cmd/templ/generatecmd/watcher", "./internal/skipdir", "./generator", "./parser/v2")
+	outputFilesReplaced(c, "C15.R9")
 	p := c.pkg("cmd/templ/generatecmd")
 	info := p.TypesInfo
 
@@ -877,4 +879,75 @@ func sharedSliceAppends(c *Ctx) {
 		})
 	}
 	c.count("appends_to_shared_slice_fields", n)
+}
+
+// outputFilesReplaced: C15.R9 — every file the generate command writes is REPLACED by the new content. os.WriteFile and
+// os.Create truncate; an os.OpenFile for writing must carry O_TRUNC (or O_APPEND / O_EXCL, which have their own
+// meaning). Without truncation, generating a shorter file over a longer one leaves the tail of the old content: the
+// result is not the generation of the template, and a second run does not repair it.
+func outputFilesReplaced(c *Ctx, rule string) {
+	n := 0
+	var osPkg *types.Package
+	for _, p := range c.roots {
+		for _, imp := range p.Types.Imports() {
+			if imp.Path() == "os" {
+				osPkg = imp
+			}
+		}
+	}
+	flag := func(name string) int64 {
+		if osPkg == nil {
+			return 0
+		}
+		if k, ok := osPkg.Scope().Lookup(name).(*types.Const); ok {
+			if v, ok := constant.Int64Val(k.Val()); ok {
+				return v
+			}
+		}
+		return 0
+	}
+	oTrunc, oAppend, oExcl, oWronly, oRdwr := flag("O_TRUNC"), flag("O_APPEND"), flag("O_EXCL"), flag("O_WRONLY"), flag("O_RDWR")
+	for _, p := range c.roots {
+		if !strings.Contains(p.PkgPath, "/cmd/templ/generatecmd") {
+			continue
+		}
+		info := p.TypesInfo
+		for _, fd := range allFuncDecls(p) {
+			ord := 0
+			ast.Inspect(fd.Body, func(x ast.Node) bool {
+				call, ok := x.(*ast.CallExpr)
+				if !ok {
+					return true
+				}
+				fn := calleeOf(info, call)
+				if fn == nil {
+					return true
+				}
+				switch fullName(fn) {
+				case "os.WriteFile", "os.Create":
+					n++
+					c.ok(rule, fmt.Sprintf("%s|%s", funcKey(p, fd), fullName(fn)), c.pos(call.Pos()), "truncating writer")
+				case "os.OpenFile":
+					if len(call.Args) != 3 {
+						return true
+					}
+					ord++
+					n++
+					tv := info.Types[call.Args[1]]
+					if tv.Value == nil {
+						c.undec(rule, fmt.Sprintf("%s|os.OpenFile#%d", funcKey(p, fd), ord), c.pos(call.Pos()), "the flags of os.OpenFile are not a constant expression")
+						return true
+					}
+					v, _ := constant.Int64Val(tv.Value)
+					writes := v&oWronly != 0 || v&oRdwr != 0
+					okFlags := !writes || v&oTrunc != 0 || v&oAppend != 0 || v&oExcl != 0
+					c.check(okFlags, rule, fmt.Sprintf("%s|os.OpenFile#%d|replaces-content", funcKey(p, fd), ord), c.pos(call.Pos()), "opened with "+types.ExprString(call.Args[1]),
+						fmt.Sprintf("%s opens an output file for writing with %s — no O_TRUNC: when the new content is shorter than the existing file, the tail of the old content stays behind it; the command exits 0 but the file is not the generation of the template (and not valid Go), and running it again does not repair it", fd.Name.Name, types.ExprString(call.Args[1])))
+				}
+				return true
+			})
+		}
+	}
+	c.count("output_file_open_sites", n)
+	c.floor(rule, 2)
 }
